@@ -80,7 +80,16 @@ def run(ctx):
                 m = re.search(r"cannot find (?:type|struct|trait|value) `(\w+)` in module `[\w:]*generics`", msg)
                 key = "generics::" + m.group(1) if m else "%s: %s" % (unit, re.sub(r"`[\w:]*::(\w+_\w+|o\d\d)::", "`<mod>::", msg)[:100])
                 rn.violate(key, "pest accepts the fixture grammar but the emitted code does not compile: [%s] %s" % (code, msg))
-    rn.require(3, "fixtures")
+    # every rule kind under every combination of WHITESPACE / COMMENT definitions (both / WHITESPACE only / COMMENT only / none),
+    # both generators (seed C11-7: the COMMENT-only arm of the skip type named WHITESPACE — such grammars stopped compiling)
+    for unit, what in (("fx_kinds2", "rule kinds x skip-rule combinations, optimizer on"), ("fx_kinds2r", "the same with pest_optimizer = false")):
+        try:
+            facts.load(unit)
+            rn.inst("%s (%s)" % (unit, what), None, "ok")
+        except facts.BuildFailed as ex:
+            first = [l for l in ex.out.splitlines() if l.startswith("error")][:2]
+            rn.violate("%s (%s)" % (unit, what), "pest accepts the fixture grammars but the emitted code does not compile: %s" % " | ".join(first)[:300])
+    rn.require(5, "fixtures")
 
     # ---- recursion while parsing goes through the grammar only
     ra = ctx.rule("R11-ACYCLIC", "among the functions reachable from the parse entry points, calls that are not dispatched on a child node type form no cycle: "
